@@ -724,7 +724,11 @@ class SVG:
 
         new_fill = to_element(gradient)
         # TODO normalize stop elements too
-        new_fill.extend(copy.deepcopy(stop) for stop in fill_el)
+        for stop_el in fill_el:
+            new_stop_el = copy.deepcopy(stop_el)
+            # strip stop id if present; useless and no longer unique
+            _del_attrs(new_stop_el, "id")
+            new_fill.append(new_stop_el)
 
         self._apply_gradient_translation(new_fill)
 
